@@ -856,8 +856,8 @@ pub fn run(run: &mut Run) {
     run.require_class("editor_round_trip", "astral_before_lint_on_line", (n / 20) as u64);
     run.require_class("editor_round_trip", "lint_on_last_line_without_newline", (n / 20) as u64);
     run.require_class("editor_round_trip", "crlf", (n / 10) as u64);
-    run.require_class("editor_round_trip", "diagnostic_with_two_or_more_others_inside_it", (n / 40) as u64);
-    run.require_class("editor_round_trip", "single_line_diagnostic_containing_an_astral_character", (n / 40) as u64);
+    run.require_class("editor_round_trip", "diagnostic_with_two_or_more_others_inside_it", (n / 125) as u64);
+    run.require_class("editor_round_trip", "single_line_diagnostic_containing_an_astral_character", (n / 125) as u64);
     run.require_class("editor_round_trip", "leading_byte_order_mark_with_lint_on_first_line", (n / 40) as u64);
     let n = run.n(200, 4_000);
     run.prop("code_actions_racing_an_edit", n, race_case, test_race);
